@@ -748,7 +748,7 @@ def do_asphred(ctx, batch, case):
 # pipeline
 # ------------------------------------------------------------------------------------------------
 
-def gen_cli_case(rng, mode, prephase=None):
+def gen_cli_case(rng, mode, prephase=None, layout=None):
     """prephase: None = the input VCF already carries phase information in about a third of the cases; True = always"""
     import random
     sub = rng.randrange(1 << 30)
@@ -757,7 +757,26 @@ def gen_cli_case(rng, mode, prephase=None):
     r2 = random.Random(sub ^ 0x5A5A5A5)
     if prephase or (prephase is None and r2.random() < 0.35):
         prephase_input(r2, case)
+    # several chromosomes whose coordinates coincide at the chromosome boundary (seed C05-i): a generator of its own again
+    r3 = random.Random(sub ^ 0xC0517)
+    if layout is not None or r3.random() < 0.45:
+        add_cli_layout(r3, case, layout)
     return case
+
+
+def add_cli_layout(r, case, force=None):
+    """cross-contig layout (gen/c05_ped.py:add_layout) for a trusted `--ped` case without a genetic map (`--genmap` runs are
+    tied to one `--chromosome`)"""
+    from harness.gen import c05_ped as G
+    data = case["data"]
+    if force and data.get("genmap") and not data.get("pl"):
+        # a forced layout wins over the genetic map of the case
+        data["genmap"] = None
+        i = case["args"].index("--chromosome")
+        case["args"] = case["args"][:i] + ["--recombrate", "1.26"] + case["args"][i + 2:]
+    if data.get("pl") or data.get("genmap") or "--chromosome" in case["args"]:
+        return
+    case["args"] = list(case["args"]) + G.add_layout(r, data, genetic="--no-genetic-haplotyping" not in case["args"], force=force)
 
 
 def prephase_input(r, case):
@@ -881,9 +900,12 @@ def run_cli(ctx, batch, case):
             check_cli_lik(ctx, batch, case, samples, recs, inrecs, trace)
         else:
             rows = read_recombination_list(ctx, case, rl)
-            for n in ([case["data"]["twin"]] if case["data"].get("twin") else []) + [case["data"]["contig"]]:
+            names = G.selected_contigs(case["data"], case["args"])
+            for n in names:
+                check_text(ctx, case, samples, [r for r in recs if r["chrom"] == n], [r for r in inrecs if r["chrom"] == n], n)
                 check_cli(ctx, batch, case, samples, [r for r in recs if r["chrom"] == n], [r for r in inrecs if r["chrom"] == n],
                           [t for t in trace if t["chromosome"] == n], rows)
+            boundary_dists(ctx, case, samples, recs, names)
     finally:
         shutil.rmtree(d, ignore_errors=True)
 
@@ -993,6 +1015,70 @@ def check_recombination_list(ctx, case, t, rows, phase, sr, fidx):
     ctx.dist("cli_recombination_rows_checked_on_vcf_alleles", min(conv.n, 12))
     ctx.dist("cli_visible_recombinations_in_phase", min(n_visible, 6))
     return n_pat, n_mat
+
+
+def ped_families(data):
+    """families of the PED file: connected groups of its trios, as lists of trios"""
+    groups = []
+    for tr in data["trios"]:
+        hit = [g for g in groups if any(set(tr) & set(x) for x in g)]
+        merged = [tr] + [x for g in hit for x in g]
+        groups = [g for g in groups if g not in hit] + [merged]
+    return groups
+
+
+def check_text(ctx, case, samples, recs, inrecs, chrom):
+    """Oracle on ONE chromosome judged from the OUTPUT TEXT against the INPUT genotypes and the PED file only (no trace, no
+    model): with genetic haplotyping every variant that the documented rule of `find_phaseable_variants` keeps (no missing
+    genotype, no Mendelian conflict in the family) at which a child is heterozygous and one of its parents homozygous must
+    come out phased in that child — on EVERY chromosome of the run, whatever the other chromosomes look like."""
+    from harness.gen import c05_ped as G
+    data = case["data"]
+    if "--no-genetic-haplotyping" in case["args"] or "--distrust-genotypes" in case["args"]:
+        return
+    sidx = {s: samples.index(s) for s in samples}
+    if [r["pos"] for r in recs] != [r["pos"] for r in inrecs]:
+        ctx.fail(f"the records of {chrom} in the output are not the input's", case, key="output-records-differ")
+        return
+    in_gt = {s: [GT_LIST_of(r["calls"][sidx[s]]["GT"]) for r in inrecs] for s in samples}
+    phase = {s: G.decode_calls(recs, sidx[s]) for s in samples}
+    for trios in ped_families(data):
+        fam = sorted({x for t in trios for x in t})
+        if any(s not in sidx for s in fam):
+            continue
+        for vi, r in enumerate(inrecs):
+            pos = r["pos"]
+            if any(in_gt[s][vi] == [] for s in fam):
+                continue
+            if any(not feasible_child(in_gt[f][vi], in_gt[m][vi], in_gt[c][vi]) for f, m, c in trios):
+                continue
+            for f, m, c in trios:
+                gf, gm, gc = in_gt[f][vi], in_gt[m][vi], in_gt[c][vi]
+                if sorted(gc) == [0, 1] and (len(set(gf)) == 1 or len(set(gm)) == 1):
+                    ctx.hist["cli_text_oracle(child het, parent hom)"]["phased" if pos in phase[c] else "UNPHASED"] += 1
+                    if pos not in phase[c]:
+                        ctx.fail(f"{chrom}:{pos + 1}: no missing genotype and no Mendelian conflict in the family, child {c} is "
+                                 f"heterozygous, a parent is homozygous (father {gf}, mother {gm}), genetic haplotyping is on — "
+                                 f"but the output leaves the child unphased (contigs of the run: "
+                                 f"{G.selected_contigs(data, case['args'])})", case, key="phaseable-not-phased")
+
+
+def boundary_dists(ctx, case, samples, recs, names):
+    """input coverage measured on the OUTPUT: does the first record phased on a chromosome stand at the coordinate of the
+    last record phased on the chromosome written before it?"""
+    from harness.gen import c05_ped as G
+    lay = case["data"].get("layout")
+    ctx.dist("cli_contigs_phased_in_one_run", len(names))
+    ctx.dist("cli_layout", "-" if not lay else f"{lay['base']}/{lay['chain']}/{lay['n']}{'/skip-middle' if lay.get('skip_middle') else ''}")
+    span = {}
+    for n in names:
+        ps = sorted({p for si in range(len(samples)) for p in G.decode_calls([r for r in recs if r["chrom"] == n], si)})
+        span[n] = (ps[0], ps[-1]) if ps else None
+    for a, b in zip(names, names[1:]):
+        if span[a] and span[b]:
+            ctx.dist("cli_boundary(first phased POS of a chromosome == last phased POS of the one before)", span[a][1] == span[b][0])
+            if span[a][1] == span[b][0]:
+                ctx.nontrivial("boundary" + json.dumps([case.get("sub_seed"), case["mode"]]))
 
 
 def check_cli(ctx, batch, case, samples, recs, inrecs, trace, rows=None):
@@ -1394,6 +1480,16 @@ def run(ctx):
         pre = pre * 8
     for m in pre * ctx.scale:
         run_cli(ctx, batch, gen_cli_case(rng, m, prephase=True))
+    # several chromosomes in one run whose coordinates coincide at the boundary (seed C05-i): always a few, read-less
+    # genetic phasing and with reads, two contigs and three with the middle one deselected
+    lays = [("trio-noreads", {"base": "identical", "chain": "phased", "n": 2, "skip_middle": False}),
+            ("quartet-noreads", {"base": "subset", "chain": "phased", "n": 3, "skip_middle": True}),
+            ("trio-sparse", {"base": "subset", "chain": "phased", "n": 2, "skip_middle": False}),
+            ("quartet-deep", {"base": "identical", "chain": "phased", "n": 3, "skip_middle": True})]
+    if not ctx.quick:
+        lays = lays * 8
+    for m, lay in lays * ctx.scale:
+        run_cli(ctx, batch, gen_cli_case(rng, m, layout=lay))
     batch.flush()
     G.assert_overlay_in_use(ctx.overlay)
     if not ctx.quick:
